@@ -89,7 +89,8 @@ PokeClamp(t) ==
     /\ pc[t] = "poke_clamp"
     /\ LET can == IF lv[t].t < lv[t].floor THEN 0 ELSE lv[t].t - lv[t].floor
            rem == IF lv[t].rem > can THEN can ELSE lv[t].rem IN
-       /\ pending' = pending - (lv[t].rem - rem)
+       \* Mut "poke_full_keeps_pending" (seed C01-4): "pool is full" returns before the reservation is given back
+       /\ pending' = IF Mut = "poke_full_keeps_pending" /\ can = 0 THEN pending ELSE pending - (lv[t].rem - rem)
        /\ lv' = [lv EXCEPT ![t].rem = rem]
        /\ Go(t, IF rem = 0 THEN lv[t].ret ELSE "poke_cas")
     /\ UNCHANGED <<MP, pool, sem, ws, ip, GH>>
